@@ -181,6 +181,9 @@ func runC16(o Opts) error {
 	}
 	for i := 0; i < n; i++ {
 		d := int64(r.U64() % 4102444800000)
+		if i%4 == 3 { // any year up to 9999 (beyond the range of a 64-bit nanosecond count, which ends in 2262)
+			d = int64(r.U64() % 253402300799000)
+		}
 		t := d + int64(r.Intn(4001)) - 2000
 		if t < 0 {
 			t = 0
